@@ -197,6 +197,8 @@ Qed.
 
 Lemma model_satisfies_monitor i : holds_b i (run i) = true.
 Proof.
-  unfold holds_b, run, out_of, out_eqb. apply (list_eqb_eq _ q4_eqb_eq).
-  rewrite aggregate_batches_concat, concat_map, aggregate_spec. reflexivity.
+  unfold holds_b, run, out_eqb. apply (list_eqb_eq _ (list_eqb_eq _ q4_eqb_eq)).
+  induction i as [|seg i IH]; cbn [run_from map]; [reflexivity|].
+  unfold clear at 1. rewrite IH. f_equal. unfold out_of.
+  now rewrite aggregate_batches_concat, concat_map, aggregate_spec.
 Qed.
